@@ -90,6 +90,25 @@ func runBad(c *Ctx, prop string) {
 			}
 		}
 		sortStrings(objs)
+		faultRootFields = nil
+		if schema.Query != nil {
+			for _, fd := range schema.Query.Fields {
+				td := schema.Types[fd.Type.Name()]
+				needsArg := false
+				for _, a := range fd.Arguments {
+					needsArg = needsArg || (a.Type.NonNull && a.DefaultValue == nil)
+				}
+				if td == nil || needsArg || strings.HasPrefix(fd.Name, "__") {
+					continue
+				}
+				switch td.Kind {
+				case "OBJECT":
+					faultRootFields = append(faultRootFields, fd.Name)
+				case "INTERFACE", "UNION":
+					faultRootFields = append(faultRootFields, fd.Name, fd.Name)
+				}
+			}
+		}
 		class := faultClasses[i%len(faultClasses)]
 		if i >= n {
 			class = convClasses[(i-n)%len(convClasses)]
